@@ -4,7 +4,6 @@ package tmstate_test
 
 import (
 	"fmt"
-	"strings"
 	"sync/atomic"
 	"testing"
 
@@ -53,7 +52,7 @@ func c02Run(r *verifkit.Run, i int, s1, s2 uint64, cfg e2Cfg, nBase, nPost int, 
 		events++
 	}
 	restarted := false
-	if plan.restartAfter >= 0 || w.frozen || (plan.freezeCall > 0 && false) {
+	if plan.restartAfter >= 0 || w.frozen {
 		if !w.wdFired {
 			restarted = true
 			if w.restart() {
@@ -145,12 +144,11 @@ func TestVerif_C02(t *testing.T) {
 		agg.report(r)
 		return
 	}
-	n := r.N(320, 20000)
+	n := r.N(320, 6000)
 	r.Parallel(n, func(i int) {
 		e2Guarded(r, fmt.Sprintf("C02/case-%d", i), func() { c02Case(r, i, agg, &runs) })
 	})
 	r.Count("histories", int64(n))
 	r.Count("runs", runs.Load())
 	agg.report(r)
-	_ = strings.TrimSpace
 }
